@@ -9,6 +9,7 @@ import (
 
 	"kverif/internal/conc"
 	"kverif/internal/replay"
+	"kverif/internal/smt"
 )
 
 // blockedSummary describes, per thread kind, the blocking event each
@@ -129,7 +130,11 @@ func (ic *InjCase) report(sigIn map[string]string, m map[string]string, tag stri
 		ok := false
 		why := ""
 		for attempt := 0; attempt < 3 && !ok; attempt++ {
-			script = scriptFromModel(ic, m, attempt)
+			if b := hints["_barrier"]; b != "" {
+				script = replay.Script{Steps: []replay.Step{{Op: "barrier", Provs: strings.Split(b, ",")}}, ReleaseAll: true, Repeat: 1}
+			} else {
+				script = scriptFromModel(ic, m, attempt)
+			}
 			rep = replay.Run(ic.pipe, ic.Item, ic.Decl, script)
 			ic.st.mu.Lock()
 			ic.st.replays++
@@ -235,6 +240,9 @@ func scriptFromModel(ic *InjCase, m map[string]string, attempt int) replay.Scrip
 func observed(sig, hints map[string]string, sc replay.Script, rep *replay.Result) (bool, string) {
 	why := "no run showed the observable"
 	for _, o := range rep.Observations {
+		if k := sig["kind"]; k == "no-overlap" || k == "ordered-after-async" {
+			break
+		}
 		if !o.Realised {
 			why = "schedule not realisable: " + o.StuckAt
 			continue
@@ -295,12 +303,48 @@ func observed(sig, hints map[string]string, sc replay.Script, rep *replay.Result
 				return true, ""
 			}
 			why = "race detector silent"
-		case "no-overlap", "ordered-after-async":
-			// existential properties: the violation is that NO schedule exists;
-			// the replay asks the runtime for the overlap and confirms when it
-			// cannot be reached (schedule not realisable).
-			return false, "handled by the caller"
+		case "result-differs":
+			if o.Returned && o.ValueID != hints["_expect_result"] {
+				return true, ""
+			}
+			why = "returned " + o.ValueID
+		case "argument-differs", "unneeded-provider-invoked", "provider-invoked-twice", "needed-provider-skipped":
+			n := 0
+			for _, l := range o.Log {
+				if strings.HasPrefix(l, "args "+hints["_prov"]+" ") {
+					n++
+					if sig["kind"] == "argument-differs" && l != "args "+hints["_prov"]+" ("+hints["_expect_args"]+")" {
+						return true, ""
+					}
+				}
+			}
+			switch sig["kind"] {
+			case "unneeded-provider-invoked":
+				if n > 0 {
+					return true, ""
+				}
+			case "provider-invoked-twice":
+				if n > 1 {
+					return true, ""
+				}
+			case "needed-provider-skipped":
+				if n == 0 && o.Returned && (o.Err == "nil" || o.Err == "none") {
+					return true, ""
+				}
+			}
+			why = fmt.Sprintf("log: %v", o.Log)
 		}
+	}
+	// existential properties (C05): the violation is that NO schedule exists;
+	// the replay holds every provider inside and asks for the overlap: it is
+	// confirmed when the barrier cannot be reached.
+	if k := sig["kind"]; k == "no-overlap" || k == "ordered-after-async" {
+		for _, o := range rep.Observations {
+			if !o.Realised && strings.HasPrefix(o.StuckAt, "barrier") {
+				return true, ""
+			}
+		}
+		return false, "the barrier was reached: the providers do overlap"
 	}
 	return false, why
 }
@@ -397,3 +441,63 @@ func producersOf(ic *InjCase, en *conc.Node) []*conc.Node {
 }
 
 var _ = fmt.Sprint
+
+// nativeID renders a reference term of sort V the way the replay's
+// identity-carrying values print themselves.
+func nativeID(term string) string {
+	sx, err := smt.ParseSexp(term)
+	if err != nil || sx == nil {
+		return term
+	}
+	var render func(x *smt.Sexp) string
+	outName := func(a string) (string, bool) {
+		if !strings.HasPrefix(a, "out_") {
+			return "", false
+		}
+		a = a[4:]
+		i := strings.LastIndexByte(a, '_')
+		if i < 0 {
+			return "", false
+		}
+		return a[:i] + "#" + a[i+1:], true
+	}
+	render = func(x *smt.Sexp) string {
+		if !x.IsL {
+			switch {
+			case x.Atom == "in_ctx":
+				return "ctx"
+			case x.Atom == "ZEROV":
+				return "nil"
+			}
+			if n, ok := outName(x.Atom); ok {
+				return n + "()"
+			}
+			return x.Atom
+		}
+		if len(x.List) == 0 {
+			return ""
+		}
+		head := x.List[0].Atom
+		var args []string
+		for _, a := range x.List[1:] {
+			args = append(args, render(a))
+		}
+		if n, ok := outName(head); ok {
+			return n + "(" + strings.Join(args, ",") + ")"
+		}
+		if head == "litS" && len(x.List) == 2 {
+			s, _ := smt.ParseStrLit(x.List[1].Atom)
+			return s
+		}
+		return head + "(" + strings.Join(args, ",") + ")"
+	}
+	return render(sx)
+}
+
+func nativeArgs(args []string) string {
+	out := make([]string, len(args))
+	for i, a := range args {
+		out[i] = nativeID(a)
+	}
+	return strings.Join(out, ",")
+}
